@@ -99,7 +99,7 @@ CLAIMED = {
  "C10": ("translator for the scalar formulas of hosvd.py / tucker_als.py (regenerated every run) + Lean models with eigh / nvecs as services + theorems over the reals; Float replay of recorded runs with prescribed spectra",
          "proved for all inputs given the service contracts: HOSVD factors are orthonormal, the core is the data times the transposed factors for both strategies and any mode order, automatic ranks are the least "
          "with discarded tail <= tol^2||X||^2/d, given ranks are kept exactly, and the relative error is <= tol (full proof, sequential and non-sequential); Tucker-ALS: orthonormal factors, core relation, "
-         "||X-T||^2 = ||X||^2 - ||G||^2 hence reported fit = recomputed fit, iteration limit. Fit monotonicity of Tucker-ALS is _partial: conditional on Ky Fan's maximum principle as an explicit hypothesis",
+         "||X-T||^2 = ||X||^2 - ||G||^2 hence reported fit = recomputed fit, iteration limit. the fit of Tucker-ALS never decreases over iterations (Ky Fan's maximum principle is proved and bridged from C14, so this is unconditional given the nvecs contract)",
          _NOTE + "; eigh / nvecs contracts (orthonormal eigenpairs / leading vectors) are checked on every recorded call; whole runs are replayed at Float with recorded service outputs at 1e-9", "DESIGN.md 7 (C10)"),
  "C11": ("translator for the anchored formulas of cp_apr.py (regenerated every run) + Lean state-machine models of MU / PDNR / PQNR with the search direction as a service + invariants over any ordered field; Float replay and one-step validation",
          "proved for all inputs and ANY search direction: every reachable state of all three variants has non-negative weights and factor entries; shape and rank; KKT violations non-negative with one entry per "
